@@ -41,8 +41,8 @@ pub struct EncCase {
     pub h: u32,
     pub pixels: Vec<u8>,
     pub filter: u8,      // 0..4, 5 adaptive
-    pub compression: u8, // 0 NoCompression, 1 FdeflateUltraFast, 2..=11 Level(0..9), 12..16 presets
-    pub path: u8,        // 0 write_image_data, 1 stream_writer
+    pub compression: u8, // 0 NoCompression, 1 FdeflateUltraFast, 2..=11 Level(0..9), 12..16 presets, 17 Compression::default()
+    pub path: u8,        // 0 write_image_data, 1 stream_writer, 2 into_stream_writer (the stream writer owns the Writer)
     pub stream_buf: usize,
     pub partition: Vec<usize>, // sizes of write() calls (cycled)
     pub sink: Vec<usize>,      // short-write schedule
@@ -105,70 +105,81 @@ impl EncCase {
     }
 }
 
+/// the pixel bytes through `StreamWriter::write` in the pieces of `c.partition`
+fn feed<W: Write>(sw: &mut png::StreamWriter<W>, c: &EncCase) -> Result<(), String> {
+    let mut pos = 0;
+    let mut k = 0;
+    let mut stall = 0;
+    while pos < c.pixels.len() {
+        let want = if c.partition.is_empty() { c.pixels.len() } else { c.partition[k % c.partition.len()].max(1) };
+        k += 1;
+        let end = (pos + want).min(c.pixels.len());
+        // write() may accept fewer bytes than offered: continue from what was accepted
+        let n = sw.write(&c.pixels[pos..end]).map_err(|e| format!("stream write: {}", e))?;
+        if n == 0 {
+            stall += 1;
+            if stall > 3 {
+                return Err("stream write accepted 0 bytes repeatedly".into());
+            }
+        } else {
+            stall = 0;
+        }
+        pos += n;
+    }
+    Ok(())
+}
+
+/// first image of the file under the given output transformations
+fn decode_with(file: &[u8], t: png::Transformations) -> Result<Vec<u8>, String> {
+    let file = file.to_vec();
+    match guarded(move || -> Result<Vec<u8>, String> {
+        let mut d = png::Decoder::new(std::io::Cursor::new(file));
+        d.set_transformations(t);
+        let mut r = d.read_info().map_err(|e| format!("read_info: {}", e))?;
+        let mut buf = vec![0u8; r.output_buffer_size()];
+        let info = r.next_frame(&mut buf).map_err(|e| format!("next_frame: {}", e))?;
+        buf.truncate(info.buffer_size());
+        Ok(buf)
+    }) {
+        Ok(r) => r,
+        Err(p) => Err(format!("PANIC {}", p)),
+    }
+}
+
+/// the sink of an owned stream writer (`into_stream_writer` wants a `'static` sink)
+struct SharedShort(std::rc::Rc<std::cell::RefCell<ShortSink>>);
+
+impl Write for SharedShort {
+    fn write(&mut self, buf: &[u8]) -> std::io::Result<usize> {
+        self.0.borrow_mut().write(buf)
+    }
+    fn flush(&mut self) -> std::io::Result<()> {
+        self.0.borrow_mut().flush()
+    }
+}
+
 pub fn encode(c: &EncCase) -> Result<Vec<u8>, String> {
     let c = c.clone();
     match guarded(move || -> Result<Vec<u8>, String> {
         let mut sink = ShortSink { data: vec![], schedule: c.sink.clone(), calls: 0 };
+        if c.path == 2 {
+            // the stream writer owns the `Writer`: its `finish` ends the file
+            let shared = std::rc::Rc::new(std::cell::RefCell::new(sink));
+            let w = configure(SharedShort(shared.clone()), &c)?.write_header().map_err(|e| format!("write_header: {}", e))?;
+            let mut sw = if c.stream_buf == 0 { w.into_stream_writer() } else { w.into_stream_writer_with_size(c.stream_buf) }.map_err(|e| format!("into_stream_writer: {}", e))?;
+            feed(&mut sw, &c)?;
+            sw.finish().map_err(|e| format!("stream finish: {}", e))?;
+            let data = std::mem::take(&mut shared.borrow_mut().data);
+            return Ok(data);
+        }
         {
-            let mut enc = if c.interlaced_flag {
-                let mut info = png::Info::default();
-                info.width = c.w;
-                info.height = c.h;
-                info.color_type = color_of(c.color);
-                info.bit_depth = depth_of(c.depth);
-                info.interlaced = true;
-                if c.color == 3 {
-                    info.palette = Some(vec![7u8; 3 * 256].into());
-                }
-                png::Encoder::with_info(&mut sink, info).map_err(|e| format!("with_info: {}", e))?
-            } else {
-                let mut e = png::Encoder::new(&mut sink, c.w, c.h);
-                e.set_color(color_of(c.color));
-                e.set_depth(depth_of(c.depth));
-                if c.color == 3 {
-                    e.set_palette(vec![7u8; 3 * 256]);
-                }
-                e
-            };
-            match c.compression {
-                0 => enc.set_deflate_compression(png::DeflateCompression::NoCompression),
-                1 => enc.set_deflate_compression(png::DeflateCompression::FdeflateUltraFast),
-                2..=11 => enc.set_deflate_compression(png::DeflateCompression::Level(c.compression - 2)),
-                12 => enc.set_compression(png::Compression::NoCompression),
-                13 => enc.set_compression(png::Compression::Fastest),
-                14 => enc.set_compression(png::Compression::Fast),
-                15 => enc.set_compression(png::Compression::Balanced),
-                _ => enc.set_compression(png::Compression::High),
-            }
-            // the presets also choose a filter; an explicit filter afterwards overrides it
-            if c.compression < 12 || c.filter != 5 {
-                enc.set_filter(filter_of(c.filter));
-            }
-            let mut w = enc.write_header().map_err(|e| format!("write_header: {}", e))?;
+            let mut w = configure(&mut sink, &c)?.write_header().map_err(|e| format!("write_header: {}", e))?;
             if c.path == 0 {
                 w.write_image_data(&c.pixels).map_err(|e| format!("write_image_data: {}", e))?;
                 w.finish().map_err(|e| format!("finish: {}", e))?;
             } else {
                 let mut sw = if c.stream_buf == 0 { w.stream_writer() } else { w.stream_writer_with_size(c.stream_buf) }.map_err(|e| format!("stream_writer: {}", e))?;
-                let mut pos = 0;
-                let mut k = 0;
-                let mut stall = 0;
-                while pos < c.pixels.len() {
-                    let want = if c.partition.is_empty() { c.pixels.len() } else { c.partition[k % c.partition.len()].max(1) };
-                    k += 1;
-                    let end = (pos + want).min(c.pixels.len());
-                    // write() may accept fewer bytes than offered: continue from what was accepted
-                    let n = sw.write(&c.pixels[pos..end]).map_err(|e| format!("stream write: {}", e))?;
-                    if n == 0 {
-                        stall += 1;
-                        if stall > 3 {
-                            return Err("stream write accepted 0 bytes repeatedly".into());
-                        }
-                    } else {
-                        stall = 0;
-                    }
-                    pos += n;
-                }
+                feed(&mut sw, &c)?;
                 sw.finish().map_err(|e| format!("stream finish: {}", e))?;
             }
         }
@@ -177,6 +188,46 @@ pub fn encode(c: &EncCase) -> Result<Vec<u8>, String> {
         Ok(r) => r,
         Err(p) => Err(format!("PANIC {}", p)),
     }
+}
+
+/// `Encoder` on `sink` with the colour type, compression and filter settings of the case
+fn configure<W: Write>(sink: W, c: &EncCase) -> Result<png::Encoder<'static, W>, String> {
+    let mut enc = if c.interlaced_flag {
+        let mut info = png::Info::default();
+        info.width = c.w;
+        info.height = c.h;
+        info.color_type = color_of(c.color);
+        info.bit_depth = depth_of(c.depth);
+        info.interlaced = true;
+        if c.color == 3 {
+            info.palette = Some(vec![7u8; 3 * 256].into());
+        }
+        png::Encoder::with_info(sink, info).map_err(|e| format!("with_info: {}", e))?
+    } else {
+        let mut e = png::Encoder::new(sink, c.w, c.h);
+        e.set_color(color_of(c.color));
+        e.set_depth(depth_of(c.depth));
+        if c.color == 3 {
+            e.set_palette(vec![7u8; 3 * 256]);
+        }
+        e
+    };
+    match c.compression {
+        0 => enc.set_deflate_compression(png::DeflateCompression::NoCompression),
+        1 => enc.set_deflate_compression(png::DeflateCompression::FdeflateUltraFast),
+        2..=11 => enc.set_deflate_compression(png::DeflateCompression::Level(c.compression - 2)),
+        12 => enc.set_compression(png::Compression::NoCompression),
+        13 => enc.set_compression(png::Compression::Fastest),
+        14 => enc.set_compression(png::Compression::Fast),
+        15 => enc.set_compression(png::Compression::Balanced),
+        16 => enc.set_compression(png::Compression::High),
+        _ => enc.set_compression(png::Compression::default()),
+    }
+    // the presets also choose a filter; an explicit filter afterwards overrides it
+    if c.compression < 12 || c.filter != 5 {
+        enc.set_filter(filter_of(c.filter));
+    }
+    Ok(enc)
 }
 
 /// an animation written frame by frame: every frame is an image "accepted by the encoder" and has to come back unchanged
@@ -390,7 +441,7 @@ fn gen_anim(rng: &mut Rng) -> AnimCase {
 }
 
 fn judge(c: &EncCase, model_ans: Option<&str>, file: &Result<Vec<u8>, String>) -> Option<(&'static str, String, String)> {
-    let tag = format!("{}{}", if c.path == 0 { "image" } else { "stream" }, if c.interlaced_flag { "+interlaced-flag" } else { "" });
+    let tag = format!("{}{}", match c.path { 0 => "image", 1 => "stream", _ => "owned-stream" }, if c.interlaced_flag { "+interlaced-flag" } else { "" });
     let file = match file {
         Err(e) => {
             let k = if e.starts_with("PANIC") { "panic" } else { "refused" };
@@ -404,6 +455,21 @@ fn judge(c: &EncCase, model_ans: Option<&str>, file: &Result<Vec<u8>, String>) -
             if d.pixels != c.pixels || (d.w, d.h, d.color, d.depth) != (c.w, c.h, c.color, c.depth) {
                 let at = d.pixels.iter().zip(&c.pixels).position(|(a, b)| a != b).unwrap_or(0);
                 return Some(("oracle", format!("lossy/{}", tag), format!("decoded bytes differ from the bytes given at offset {} (decoded {} bytes, gave {})", at, d.pixels.len(), c.pixels.len())));
+            }
+            if c.path == 2 || c.compression == 17 {
+                // the directed cases also through the two named transformation sets: the default one is the identity,
+                // and `normalize_to_color8` (EXPAND | STRIP_16) has nothing to do on 8-bit samples without palette / tRNS
+                let mut sets = vec![("Transformations::default()", png::Transformations::default())];
+                if c.depth == 8 && c.color != 3 {
+                    sets.push(("Transformations::normalize_to_color8()", png::Transformations::normalize_to_color8()));
+                }
+                for (name, t) in sets {
+                    match decode_with(file, t) {
+                        Ok(px) if px == c.pixels => {}
+                        Ok(px) => return Some(("oracle", format!("lossy/{}", tag), format!("decoded with {}: {} bytes that differ from the {} bytes given", name, px.len(), c.pixels.len()))),
+                        Err(e) => return Some(("oracle", format!("undecodable/{}", tag), format!("decoded with {}: {}", name, e))),
+                    }
+                }
             }
             if let Some(ans) = model_ans {
                 let want = format!("ok {} {} {} {} {} 1 {}:{}:{}:{:016x}", c.w, c.h, c.color, c.depth, d.interlaced as u8, c.w, c.h, c.pixels.len(), fnv64(&c.pixels));
@@ -461,7 +527,7 @@ fn gen(rng: &mut Rng, big: bool) -> EncCase {
 
 pub fn run(ctx: &mut Ctx) {
     ctx.rep.rule = "real Encoder output decoded by the real decoder and by the Lean specification decoder: 15 colour/depth pairs x widths {1..9, 31..34, 63..66, 127..130, random} x heights \
-        x 6 filter settings x 17 compression settings (NoCompression, FdeflateUltraFast, Level 0..9, 5 presets) x {write_image_data, stream_writer with buffer size in {default,1,2,7,64,4096}} \
+        x 6 filter settings x 18 compression settings (NoCompression, FdeflateUltraFast, Level 0..9, 5 presets, Compression::default()) x {write_image_data, stream_writer / into_stream_writer with buffer size in {default,1,2,7,64,4096}} \
         x write() partitions (1-byte, whole, random, straddling row ends) x sink short-write schedules; adversarial pixel data classes; plus Info.interlaced=true through with_info; plus animations of 2..4 frames (whole canvas and sub-frames, 15 colour/depth pairs, per-frame filters, \
         frames written by write_image_data / one stream writer across frames / a fresh stream writer per frame / mixed) read back frame by frame; \
         non-trivial = at least 2 rows and filter != NoFilter and compression != NoCompression; distinct = hash of all case parameters".into();
@@ -474,6 +540,18 @@ pub fn run(ctx: &mut Ctx) {
         let mut c = gen(&mut r, false);
         c.interlaced_flag = true;
         c.path = (k % 2) as u8;
+        cases.push(c);
+    }
+    // the stream writer that owns the `Writer` (`into_stream_writer()` of the default size / `_with_size`), and the default
+    // preset `Compression::default()` on all three paths
+    for k in 0..ctx.n(90, 900) {
+        let mut r = rng.fork(950_000 + k as u64);
+        let mut c = gen(&mut r, false);
+        c.path = if k % 3 == 2 { (k % 2) as u8 } else { 2 };
+        c.stream_buf = *r.pick(&[0usize, 0, 1, 7, 4096]);
+        if k % 3 != 0 {
+            c.compression = 17;
+        }
         cases.push(c);
     }
     // tiny images over a small alphabet, exhaustively, with the adaptive filter: rows on which several candidate filters
@@ -523,8 +601,8 @@ pub fn run(ctx: &mut Ctx) {
         ctx.rep.count("colour/depth", &format!("{}/{}", c.color, c.depth));
         ctx.rep.count("filter", &c.filter.to_string());
         ctx.rep.count("compression", &c.compression.to_string());
-        ctx.rep.count("path", if c.path == 0 { "write_image_data" } else { "stream_writer" });
-        if c.path == 1 {
+        ctx.rep.count("path", match c.path { 0 => "write_image_data", 1 => "stream_writer", _ => "into_stream_writer" });
+        if c.path >= 1 {
             ctx.rep.count("stream buffer", &c.stream_buf.to_string());
         }
         ctx.rep.count("sink", if c.sink.is_empty() { "full writes" } else if c.sink == [1] { "1 byte" } else { "short" });
